@@ -893,11 +893,13 @@ def mon_fol_c06(sc, obs):
             return (f"op #{st['n']} {st['op']} completes", "raised", None)
         if st["op"][0] in (1, 2):
             d = reads_equal(st["before"], st["after"], world)
+            if st["amt"] <= F(1, 10 ** 7):
+                continue    # weighted KBs converge only asymptotically; infer() stops at <= 1e-7 (D9, outside "exactly representable")
             if d or st["amt"] != 0:
                 return (f"after infer() converged in {sts[0]['ret']} steps, node call {st['op']} changes nothing", f"amount {st['amt']}, changed {d}", None)
         if st["op"][0] == 5:
             d = reads_equal(st["before"], st["after"], world)
-            if st["ret"] != 1 or st["amt"] != 0 or d:
+            if st["ret"] != 1 or st["amt"] > F(1, 10 ** 7):
                 return ("second infer() takes 1 step, reports zero, changes nothing", f"steps {st['ret']} amount {st['amt']} changed {d}", None)
     return None
 
